@@ -20,17 +20,18 @@ type Decision struct {
 }
 
 type HarnessCfg struct {
-	Name     string           `json:"name"`
-	Pkg      string           `json:"pkg"`  // import path of the package the harness lives in
-	Func     string           `json:"func"` // function name
-	Arith    string           `json:"arith,omitempty"`
-	Params   map[string]int64 `json:"params,omitempty"`
-	MaxPaths int              `json:"max_paths,omitempty"`
-	MaxSteps int64            `json:"max_steps,omitempty"`
-	TimeoutS int              `json:"query_timeout_s,omitempty"`
-	Portfolio bool            `json:"portfolio,omitempty"`
-	SelectChoice bool         `json:"select_choice,omitempty"`
-	ExpectViolations []string `json:"expect,omitempty"`
+	Name             string           `json:"name"`
+	Pkg              string           `json:"pkg"`  // import path of the package the harness lives in
+	Func             string           `json:"func"` // function name
+	Arith            string           `json:"arith,omitempty"`
+	Params           map[string]int64 `json:"params,omitempty"`
+	MaxPaths         int              `json:"max_paths,omitempty"`
+	MaxSteps         int64            `json:"max_steps,omitempty"`
+	TimeoutS         int              `json:"query_timeout_s,omitempty"`
+	Portfolio        bool             `json:"portfolio,omitempty"`
+	SelectChoice     bool             `json:"select_choice,omitempty"`
+	Solver           string           `json:"solver,omitempty"`
+	ExpectViolations []string         `json:"expect,omitempty"`
 }
 
 type Harness struct {
@@ -61,27 +62,27 @@ type AssertStat struct {
 }
 
 type HarnessResult struct {
-	Name         string
-	Paths        int64
-	Completed    int64
-	Infeasible   int64
-	Unsupported  map[string]int64
-	Budget       int64
-	Deadlocks    int64
-	Panics       int64
-	Asserts      map[string]*AssertStat
-	Reached      map[string]int64
-	CEX          []*CounterEx
-	Funcs        map[string]bool
-	Stubs        map[string]int64
-	Samples      []map[string]interface{}
-	Witnesses    int64
+	Name            string
+	Paths           int64
+	Completed       int64
+	Infeasible      int64
+	Unsupported     map[string]int64
+	Budget          int64
+	Deadlocks       int64
+	Panics          int64
+	Asserts         map[string]*AssertStat
+	Reached         map[string]int64
+	CEX             []*CounterEx
+	Funcs           map[string]bool
+	Stubs           map[string]int64
+	Samples         []map[string]interface{}
+	Witnesses       int64
 	PathsWithAssert int64
-	Steps        int64
-	MaxPathsHit  bool
-	Approx       int64
-	UnknownForks int64
-	WallS        float64
+	Steps           int64
+	MaxPathsHit     bool
+	Approx          int64
+	UnknownForks    int64
+	WallS           float64
 }
 
 type Engine struct {
@@ -103,37 +104,38 @@ type workItem struct {
 
 // Path is one execution of a harness following a decision prefix.
 type Path struct {
-	eng    *Engine
-	h      *Harness
-	res    *HarnessResult
-	resMu  *sync.Mutex
-	prefix []Decision
-	pos    int
-	taken  []Decision
-	pc     []*Term
-	sol    *Solver
-	inputs []*Term
-	inNames map[string]int
-	hashApps []*hashApp
-	globals map[*ssa.Global]*Value
-	inited  map[*ssa.Package]bool
-	steps  int64
-	depth  int
-	newWork []workItem
-	hasUnknown bool
-	sched  *Sched
-	mutexes map[*Value]*mutexState
-	chanID int
-	funcs  map[string]bool
-	stubs  map[string]int64
-	reached map[string]int64
+	eng          *Engine
+	h            *Harness
+	res          *HarnessResult
+	resMu        *sync.Mutex
+	prefix       []Decision
+	pos          int
+	taken        []Decision
+	pc           []*Term
+	sol          *Solver
+	inputs       []*Term
+	inNames      map[string]int
+	hashApps     []*hashApp
+	globals      map[*ssa.Global]*Value
+	inited       map[*ssa.Package]bool
+	steps        int64
+	depth        int
+	newWork      []workItem
+	hasUnknown   bool
+	sched        *Sched
+	mutexes      map[*Value]*mutexState
+	chanID       int
+	funcs        map[string]bool
+	stubs        map[string]int64
+	reached      map[string]int64
 	assertedHere bool
-	trace  []string
-	natives map[string]interface{}
-	freshN int
-	envLog []string
-	logArgs []Value
-	tag     string
+	trace        []string
+	natives      map[string]interface{}
+	freshN       int
+	envLog       []string
+	logArgs      []Value
+	tag          string
+	verified     []*verifiedSig
 }
 
 func (p *Path) nextChanID() int { p.chanID++; return p.chanID }
@@ -197,6 +199,8 @@ func (p *Path) Fork(c *Term) bool {
 	rt := p.sol.Check(c, false)
 	if rt == Unsat {
 		// pc is satisfiable, so the negation must be
+		p.taken = append(p.taken, Decision{Kind: 'b', Taken: false})
+		p.pos++
 		p.addPC(Not(c))
 		return false
 	}
@@ -206,6 +210,8 @@ func (p *Path) Fork(c *Term) bool {
 		atomic.AddInt64(&p.res.UnknownForks, 1)
 	}
 	if rf == Unsat {
+		p.taken = append(p.taken, Decision{Kind: 'b', Taken: true})
+		p.pos++
 		p.addPC(c)
 		return true
 	}
@@ -615,7 +621,11 @@ func (e *Engine) RunHarness(h *Harness) *HarnessResult {
 		wg.Add(1)
 		go func() {
 			defer wg.Done()
-			sol := NewSolver("z3", h.Arith, timeout)
+			sk := h.Solver
+			if sk == "" {
+				sk = "z3"
+			}
+			sol := NewSolver(sk, h.Arith, timeout)
 			sol.usePortfolio = h.Portfolio
 			defer sol.Close()
 			for {
